@@ -127,3 +127,38 @@ Proof.
   destruct (I _ _ Ha) as [A1 A2]. destruct (I _ _ Hn) as [N1 N2].
   split; apply stmt_expanded_same_sets; try assumption; [split; assumption | exact Logic.I].
 Qed.
+
+(* the same at the level of a policy document: only the SET of statements matters -- their order and repetitions do not --
+   and adding a statement can only add allowed / IAM actions; a statement whose effect is not Allow adds no allowed action *)
+Theorem doc_same_statements cat ss ss' : incl ss ss' -> incl ss' ss ->
+  allowed_actions cat ss = allowed_actions cat ss' /\ iam_actions cat ss = iam_actions cat ss'.
+Proof.
+  intros H1 H2. split; (apply ssorted_ext; [apply nodup_sort_sorted | apply nodup_sort_sorted |]); intros a.
+  - rewrite !allowed_actions_In. split; intros (s & Hs & H); exists s; (split; [| exact H]); [apply H1 | apply H2]; exact Hs.
+  - rewrite !iam_actions_In. split; intros (Hp & s & Hs & H); (split; [exact Hp |]); exists s; (split; [| exact H]);
+      [apply H1 | apply H2]; exact Hs.
+Qed.
+
+Theorem doc_perm cat ss ss' : Permutation ss ss' ->
+  allowed_actions cat ss = allowed_actions cat ss' /\ iam_actions cat ss = iam_actions cat ss'.
+Proof.
+  intros H. apply doc_same_statements; intros s Hs; [eapply Permutation_in; [exact H | exact Hs] |
+    eapply Permutation_in; [apply Permutation_sym; exact H | exact Hs]].
+Qed.
+
+Theorem doc_mono cat ss ss' : incl ss ss' ->
+  incl (allowed_actions cat ss) (allowed_actions cat ss') /\ incl (iam_actions cat ss) (iam_actions cat ss').
+Proof.
+  intros H1. split; intros a Ha.
+  - apply allowed_actions_In in Ha. apply allowed_actions_In. destruct Ha as (s & Hs & H). exists s. split; [apply H1; exact Hs | exact H].
+  - apply iam_actions_In in Ha. apply iam_actions_In. destruct Ha as (Hp & s & Hs & H). split; [exact Hp |].
+    exists s. split; [apply H1; exact Hs | exact H].
+Qed.
+
+Theorem doc_non_allow_ignored cat ss s : is_allow s = false -> allowed_actions cat (s :: ss) = allowed_actions cat ss.
+Proof.
+  intros Hd. apply ssorted_ext; [apply nodup_sort_sorted | apply nodup_sort_sorted |]. intros a.
+  rewrite !allowed_actions_In. split.
+  - intros (t & [Ht | Ht] & Hal & H); [subst t; congruence | exists t; auto].
+  - intros (t & Ht & H). exists t. split; [right; exact Ht | exact H].
+Qed.
